@@ -347,7 +347,10 @@ func (i *iteratorRole) IsEnabled() bool {
 	if i == nil || i.template == nil {
 		return false
 	}
-	return i.template.IsEnabled()
+	// Only valid after ProcessTemplates. The template role's own `enabled` field is never
+	// template-processed (only its per-item copies are), so it cannot be consulted here:
+	// an iterator is enabled iff it yielded at least one enabled role.
+	return len(i.Roles) > 0
 }
 
 func (i *iteratorRole) setParent(role Updatable) {
